@@ -9,6 +9,7 @@ from architecture_simulator.isa.toy.toy_instructions import ToyInstruction
 from architecture_simulator.simulation.toy_simulation import ToySimulation
 
 from vf.adapt import toy
+from vf.checks import freshcmp
 from vf.engine.core import Partial, pmap, watchdog, CaseTimeout
 from vf.ref.toy import MN, ToyRef, decode
 
@@ -301,8 +302,24 @@ def example_check(i):
     return None
 
 
+FRESH_TEXTS = [EX1, EX3, "INC\n.data\nv: .word 7\n", "l: LDA v\nBRZ l\nNOP\nSTO w\n.data\nv: .word 1, 2\nw: .word 0x0FF\n", "NOP\nnop\nx: NOP\nBRZ x\n"]
+
+
+def fresh_items():
+    """What the process did before (a simulation with another memory size, the RISC-V assembler seeing the same lines, an
+    earlier program with the same names) must not change where the TOY assembler places code, data and labels."""
+    out = []
+    for t in FRESH_TEXTS:
+        for prelude in ([["toy_new", 64]], [["toy_new", 1000], ["toy_new", 16]], [["rv_load", t]], [["rv_load", "NOP\nnop\nx: NOP\nl: nop\nbeq x0, x0, x\n"]],
+                        [["toy_run", "l: INC\nx: DEC\n.data\nv: .word 9, 9, 9\nn: .word 1\n"]], [["rv_new", "single_stage_pipeline", False], ["toy_load", "LDA nowhere\n"]]):
+            out.append(("toy-assembler-history", prelude, ["toy_image", t]))
+    return out
+
+
 def replay(case):
     k = case["kind"]
+    if k == "fresh":
+        return freshcmp.replay(case)
     if k == "word":
         part = encoding_shard((case["w"], case["w"] + 1))
     elif k == "ctor":
@@ -337,6 +354,12 @@ def run(ctx):
     sizes = (64, 1000, 4095) if ctx.quick else (16, 64, 256, 1000, 2048, 4095)
     part = pmap(asm_shard, [(L, f, FRAMINGS, size) for size in sizes for L in (1, 2) for f in range(nchoices)][::-1])
     ctx.space("assembler-other-memory-sizes", part, t0, sizes=list(sizes), lines=[1, 2])
+    t0 = time.time()
+    items = fresh_items()
+    part = pmap(freshcmp.shard, [items[i::16] for i in range(16) if items[i::16]])
+    ctx.space("assembler-history-fresh-interpreters", part, t0, texts=len(FRESH_TEXTS), preludes=6,
+              note="each scenario runs in its own interpreter; compared with the same text assembled in a pristine interpreter")
+    ctx.require("fresh-interpreter-differential")
     t0 = time.time()
     part = Partial()
     for i in range(3):
